@@ -27,6 +27,7 @@ class Net(fakezmq.World):
         self.Z = fakezmq.install(self)
         from openfilter.filter_runtime import mq as M, filter as F
         self.M, self.F = M, F
+        fakezmq.quiet_metrics(M)        # a dedicated metrics output would start psutil sampling threads per MQ: the measurement itself is outside every property
 
     def body_id(self, parts):
         key = tuple(bytes(p) for p in parts)
@@ -97,9 +98,10 @@ class RecvTrace:
 class Node:
     """Harness-side replica of Filter.loop_once as a resumable state machine around a real MQ."""
     def __init__(self, net, name, sources=None, outputs=None, process=None, required=None, work_ms=0, srcs_balance=False, outs_balance=False,
-                 low_latency=None, nframes=None):
+                 low_latency=None, nframes=None, metrics=None):
         self.net, self.name, self.behave, self.work = net, name, process, int(work_ms * 1_000_000)
-        self.args = dict(sources=sources, outputs=outputs, required=required, srcs_balance=srcs_balance, outs_balance=outs_balance, low_latency=low_latency)
+        self.args = dict(sources=sources, outputs=outputs, required=required, srcs_balance=srcs_balance, outs_balance=outs_balance, low_latency=low_latency,
+                         metrics=metrics)      # metrics: None or the address of a DEDICATED metrics output (second ZMQSender of the MQ)
         self.nframes = nframes; self.produced = 0
         self.log = []            # what process() was handed: list of {topic: (o, seq)}
         self.raw_log = []
@@ -114,7 +116,7 @@ class Node:
         a = self.args
         srcs = None if not a['sources'] else [F.Filter.parse_topics(s) for s in a['sources']]
         self.mq = M.MQ(srcs, a['outputs'], self.name, srcs_balance=a['srcs_balance'], srcs_low_lat=a['low_latency'], outs_balance=a['outs_balance'],
-                       outs_required=a['required'], outs_metrics=False, outs_filter=False, mq_log=False)
+                       outs_required=a['required'], outs_metrics=a['metrics'] or False, outs_filter=False, mq_log=False)
         self.state = 'recv'; self.frames = None; self.wake = self.net.now; self.alive = True
         if self.net.trace and self.mq.receiver is not None:
             spec = []
@@ -133,7 +135,7 @@ class Node:
     def kill(self):
         """abrupt death: sockets vanish without CLOSE messages"""
         for s in list(self.net.all_socks):
-            if getattr(s, 'owner', None) is self: s.close()
+            if getattr(s, 'owner', None) is self: s.crash()
         self.alive = False
 
     def sockets(self):
@@ -145,6 +147,7 @@ class Node:
                 out.append(s.sub)
                 if s.push is not None: out.append(s.push)
         if mq.sender is not None: out += list(mq.sender.pulls) + list(mq.sender.pubs)
+        if getattr(mq, 'metrics_sender', None) is not None: out += list(mq.metrics_sender.pulls) + list(mq.metrics_sender.pubs)
         return out
 
     def step(self):
@@ -180,19 +183,22 @@ def tag_sockets(net):
         for s in n.sockets(): s.owner = n
 
 
-def run(net, horizon_s=60, until=None, faults=()):
-    """faults: list of (t_ns, kind, node, arg) with kind in kill|restart|stall"""
+def run(net, horizon_s=60, until=None, faults=(), max_steps=150_000):
+    """faults: list of (t_ns, kind, node, arg) with kind in kill|restart|stall.  max_steps: a run of the unchanged code needs a few thousand
+    steps; the cap ends a run in which the code under test floods (e.g. a send that is repeated for ever), the oracles then judge what happened"""
     faults = sorted(faults, key=lambda f: f[0]); fi = 0
     nodes = net.nodes
     tag_sockets(net)
     steps = 0
-    while net.now < horizon_s * 1e9:
+    while net.now < horizon_s * 1e9 and steps < max_steps:
         steps += 1
         while fi < len(faults) and faults[fi][0] <= net.now:
             _, kind, node, arg = faults[fi]; fi += 1
             if kind == 'kill': node.kill()
             elif kind == 'restart':
-                node.start(); tag_sockets(net)
+                try: node.start(); tag_sockets(net)
+                except Exception as e:          # a filter that cannot come up again stays dead (the campaign's liveness oracle sees it)
+                    node.alive = False; node.restart_error = f'{type(e).__name__}: {e}'[:200]
             elif kind == 'stall': node.stalled_until = net.now + arg
         for dst in net.deliver_due():
             for n in nodes:
